@@ -382,11 +382,14 @@ def tree_targets():
         'shared-dict': lambda: (lambda d: {'a': d, 'b': {'k': 0}, 'c': d})({'k': 1, 'j': 2}),
         'shared-rows': lambda: (lambda r: {'a': [r, [5, 6], r]})([1, 2, 3, 4]),
         'miss-in-the-middle': lambda: {'a': [{'k': 1}, {'z': 0}, {'k': 3}, [7], {'k': 5}]},
+        # containers that are EQUAL but distinct objects (every one of them is an entry of its own), some reached twice
+        'equal-twins': lambda: (lambda shared: {'eu': {'cfg': {}, 'b': {'k': 1}}, 'us': {'cfg': {}, 'b': {'k': 1}}, 'rows': [{'cfg': {}}, {'cfg': {}}, shared, shared],
+                                                'a': [{'k': 1}, {'k': 1}]})({'cfg': {}}),
         'keys-named-x': lambda: {'x': [[1, 2], [3, 4]], 'X': {'x': [{'k': 1}, {'k': 2}], 'X': [[5, 6], [7]]}, 'a': {'x': {'k': 1}, 'X': {'k': 2}}},
     }
 
 
-MUT_PATHS = ['*.0', '*.k', '*.1', 'x.0', 'x.1.0', 'X.x.0', 'X.x.k', 'X.X.0', 'X.X.1.0', 'a.x.k', 'a.X.k', 'a.*.k', 'a.*.0', 'a.*.1', 'a.*.b.*.k', 'a.*.n', '*.*.k', 'g.*.*.0', 'g.*.*.*.k', '*.*.*.0', 'h.*.*.*.k', 'g.*.*.k', '*.*.*.*.k', 'g.*.0']
+MUT_PATHS = ['**.cfg.on', '**.b.k', '**.cfg', 'rows.**.cfg.on', '*.cfg.on', '*.0', '*.k', '*.1', 'x.0', 'x.1.0', 'X.x.0', 'X.x.k', 'X.X.0', 'X.X.1.0', 'a.x.k', 'a.X.k', 'a.*.k', 'a.*.0', 'a.*.1', 'a.*.b.*.k', 'a.*.n', '*.*.k', 'g.*.*.0', 'g.*.*.*.k', '*.*.*.0', 'h.*.*.*.k', 'g.*.*.k', '*.*.*.*.k', 'g.*.0']
 
 
 def snapshot(v, depth=0):
